@@ -230,6 +230,7 @@ def run(repo: Repo, tier: str, res: CheckResult, seed: int = 0) -> None:
     captured_global_names(repo, res)
     namespace_exclusion(repo, res)
     mapped_keys_are_plain(repo, res)
+    registrations_are_mangled(repo, res)
     res.assumptions = list(ASSUMPTIONS)
 
     from .. import genprog
@@ -749,3 +750,33 @@ def _dominating_exact_type_test(m, node: ast.AST, var: str) -> bool:
                 return True
         p = m.parent(p)
     return False
+
+
+def registrations_are_mangled(repo: Repo, res: CheckResult) -> None:
+    """The converter generators put user-derived names (a linked function's __name__, a destination class) and their own
+    numbered ids (constant_0, func_0, accessor_0) into ONE namespace. A user function may be CALLED constant_0. The only
+    collision-free way in is the mangling loop (try_add_constant, then a numeric suffix until a free name is found); the
+    unconditional add_constant raises KeyError on the first collision -- the converter cannot be generated because of a name."""
+    n = 0
+    for short in ("conversion/broaching/code_generator", "conversion/converter_provider", "conversion/model_coercer_provider"):
+        try:
+            m = repo.mod(short)
+        except AnalysisError:
+            continue
+        for fn in [f for f in ast.walk(m.tree) if isinstance(f, ast.FunctionDef)]:
+            for c in [x for x in walk_no_nested(fn) if isinstance(x, ast.Call) and isinstance(x.func, ast.Attribute)]:
+                if c.func.attr not in ("add_constant", "register_var", "add_outer_constant"):
+                    continue
+                if "namespace" not in norm(c.func.value).lower():
+                    continue
+                n += 1
+                res.evaluated(f"mangled:{m.rel}:{m.qualname(fn)}:{c.lineno}", True)
+                # a name that is a fixed literal of the generator itself is registered first, before any user name: fine
+                arg0 = c.args[0] if c.args else None
+                if isinstance(arg0, ast.Constant):
+                    continue
+                res.add(Finding("C19", "SCOPE.unmangled-registration", m.rel, m.qualname(fn), norm(c)[:100],
+                                f"`{norm(c)[:80]}` registers a computed name unconditionally: when a user-derived name already holds it (a "
+                                "linked function called `constant_0`) the call raises KeyError('... is duplicated') and no converter is "
+                                "generated; names enter the namespace through the try-and-suffix loop", c.lineno))
+    res.count("SCOPE.unconditional-registrations", n, 0)
